@@ -68,6 +68,27 @@ def monitorPeer (req : Option String) (P : Peer) : Obs → Option PClause
   | .error => peerVerdict req P .error
   | .other => some .crashed
 
+/-! ### the driver's instance of `wireOK` -/
+
+/-- Go's `httpguts.ValidHeaderFieldValue`: the request can be sent at all.  Go tests the BYTES
+(`b ≥ 0x20 ∧ b ≠ 0x7f ∨ b = '\t'`); every byte of the UTF-8 encoding of a non-ASCII character is
+≥ 0x80, so the test on characters is the same test (and it evaluates in the kernel: `supported_wire_ok`). -/
+def headerValid (s : String) : Bool :=
+  s.toList.all (fun c => (c.toNat ≥ 0x20 && c.toNat != 0x7f) || c.toNat == 0x09)
+
+/-- `headerValid` plus "unchanged by header trimming" (the SDK server compares the header with the
+body's `_meta` version; a foreign peer is not assumed to). -/
+def headerSafe (s : String) : Bool :=
+  let cs := s.toList
+  headerValid s &&
+    (match cs.head? with | some c => c.toNat != 0x20 && c.toNat != 0x09 | none => true) &&
+    (match cs.getLast? with | some c => c.toNat != 0x20 && c.toNat != 0x09 | none => true)
+
+def wireFor (k : TKind) : String → Bool :=
+  match k with
+  | .mem | .pipe | .sse => fun _ => true   -- the SSE client does not send Mcp-Protocol-Version
+  | _ => headerSafe
+
 /-- What the monitor would be given if the implementation behaved exactly like the model. -/
 def obsOf : Outcome → Obs
   | .negotiated v => .ok v true true
